@@ -169,7 +169,7 @@ def _gen_for(stream, seed):
             small["impact"] = {k: v * rng.choice([1e-6, 3e-7]) for k, v in big["impact"].items()}
             small["house"] = None
         r3 = random.Random(seed ^ 0x7157)
-        if sc["events"] and r3.random() < 0.2:
+        if sc["events"] and (r3.random() < 0.2 or seed % 4 == 2):
             # two events identical in every respect (same damage, same dates, no name)
             sc["events"].append(copy.deepcopy(sc["events"][0]))
         rebs_ = [ev for ev in sc["events"] if ev["type"] == "rebuild"]
@@ -209,7 +209,16 @@ def _gen_for(stream, seed):
             b["occ"] = min(b["occ"], sc["T"] - b["dur"] - 1)
             for c_ in evs[2:]:
                 c_["occ"], c_["dur"] = 1, sc["T"] - 3          # happening from start to end
-            if a["type"] == "recovery" and b["type"] == "recovery" and random.Random(seed ^ 0xB16).random() < 0.5:
+            if seed % 2 == 0:
+                a["type"], b["type"] = "recovery", "recovery"
+                for e_ in (a, b):
+                    e_.setdefault("emf", sc["model"]["monetary_factor"])
+                    e_.setdefault("house", None)
+                    e_.setdefault("recovery_tau", 3)
+                    e_["curve"] = "linear"
+                    for k_ in ("rebuild_tau", "reb_sectors", "factor", "shares_series", "np_factor"):
+                        e_.pop(k_, None)
+            if a["type"] == "recovery" and b["type"] == "recovery" and (random.Random(seed ^ 0xB16).random() < 0.5 or seed % 2 == 0):
                 # A destroys half of an industry's capital and is completely recovered when B destroys 90 % of the same
                 # industry's capital: together they would exceed the stock, one after the other they do not
                 try:
